@@ -205,7 +205,7 @@ func coverCheck(l *loopInfo, phi *ssa.Phi, off int64, s coverSite, descOK bool) 
 		if test.Op != token.LSS {
 			return coverVerdict{bad: "the exit test is not `index < length`: " + test.String()}
 		}
-		if !lengthOf(test.Y, s.recv) {
+		if !lengthOf(test.Y, s.recv) && !lenEqualBy(test.Y, s.recv, l.header) {
 			return coverVerdict{bad: "the bound " + test.Y.String() + " is not the length of the container being read (" + s.recv.Name() + ")"}
 		}
 		return coverVerdict{dir: "ascending"}
